@@ -19,6 +19,7 @@ var props = map[string]propCfg{
 	"C20": {Assumptions: []string{"ref.ParseText implements the Cap'n Proto text value grammar as emitted for structs (strict about string literals)", "schemas: aircraftlib only", "the expected field values are read through the generated accessors"}},
 	"C16": {Assumptions: []string{"the version rule (top-level struct truncated / zero-extended, nested objects intact) is the one documented at Struct.CopyFrom; independence is asserted for operations documented or implemented as copies (cross-message assignment, list members, SetStruct, CopyFrom)"}},
 	"C08": {Race: true, Assumptions: []string{"the peer-side table model (which ids are live) is derived from the messages the peer itself sent and received", "per-message expectations are sets of outcomes the protocol allows; a message the code cannot even parse is held only to survival + alive-or-aborted"}},
+	"C09": {Level: "fault_enumeration", Assumptions: []string{"fault points are the operations of the rpc.Transport interface (harness-owned transport) and the Write/Read calls of the byte stream under the stream transports", "'bounded time' is a 30 s deadline on operations that take microseconds", "VerifState hook (build tag verif) for lock state"}},
 	"C10": {Race: true, Assumptions: []string{"the reference model encodes the documented life cycle of Client / ClientPromise / WeakClient", "programmer errors (double Fulfill, promise cycles, AddRef/WeakRef/Fulfill with a released client) are never generated", "concurrent schedules are sampled, not enumerated"}},
 	"C11": {Race: true, Assumptions: []string{"the delivery model follows the state machine documented at capnp.Promise", "programmer errors (Fulfill/Reject/Join twice, join cycles, using a pipelined client after ReleaseClients) are never generated"}},
 	"C12": {Race: true, Assumptions: []string{"'made in order' = issued from one goroutine, each after the previous Send returned (the contract of capnp.ClientHook)", "instrumented implementation logs to a totally ordered event log; invariants are checked on the log, not on timing"}},
